@@ -139,6 +139,78 @@ def check_hall_yarbrough(ctx):
         signature=("loop may be skipped" if not entered else "") + (" exit before update at line " + ",".join(map(str, early)) if early else ""),
     )
     check_hy_equation(ctx, it, q, f, loop)
+    check_nan_exit(ctx, q, f, loop)
+
+
+def _nan3(expr, body, depth=0):
+    """Three-valued truth (True / False / None) of a boolean expression when the iterate has become NaN: every ordering
+    or equality comparison is False, `!=` is True; names are resolved to their last assignment in the loop body."""
+    if isinstance(expr, ast.Constant):
+        return bool(expr.value) if isinstance(expr.value, (bool, int)) else None
+    if isinstance(expr, ast.UnaryOp) and isinstance(expr.op, ast.Not):
+        v = _nan3(expr.operand, body, depth)
+        return None if v is None else not v
+    if isinstance(expr, ast.BoolOp):
+        vals = [_nan3(v, body, depth) for v in expr.values]
+        if isinstance(expr.op, ast.And):
+            return False if any(v is False for v in vals) else (True if all(v is True for v in vals) else None)
+        return True if any(v is True for v in vals) else (False if all(v is False for v in vals) else None)
+    if isinstance(expr, ast.Compare):
+        assigned = {n.id for st in body for n in ast.walk(st) if isinstance(n, ast.Name) and isinstance(n.ctx, ast.Store)}
+        used = {n.id for n in ast.walk(expr) if isinstance(n, ast.Name)}
+        if not (used & assigned):
+            return None  # does not involve the iterate (an iteration counter, a constant)
+        counters = {st.target.id for st in body if isinstance(st, ast.AugAssign) and isinstance(st.target, ast.Name) and isinstance(st.value, ast.Constant)}
+        if used & assigned <= counters:
+            return None
+        if any(isinstance(op, (ast.Is, ast.IsNot, ast.In, ast.NotIn)) for op in expr.ops):
+            return None
+        vals = [isinstance(op, ast.NotEq) for op in expr.ops]
+        return all(vals)
+    if isinstance(expr, ast.Call):
+        fn = ast.unparse(expr.func).split(".")[-1]
+        if fn in ("isnan",):
+            return True
+        if fn in ("isfinite", "isclose", "allclose"):
+            return False
+        if fn in ("bool", "all", "any") and expr.args:
+            return _nan3(expr.args[0], body, depth)
+        return None
+    if isinstance(expr, ast.Name) and depth < 4:
+        last = None
+        for st in body:
+            for n in ast.walk(st):
+                if isinstance(n, ast.Assign) and any(isinstance(t, ast.Name) and t.id == expr.id for t in n.targets):
+                    last = n.value
+        return _nan3(last, body, depth + 1) if last is not None else None
+    return None
+
+
+def check_nan_exit(ctx, q, f, loop):
+    """C06-i (termination, necessary condition): once the Newton residual is NaN (an overshoot to y < 0 makes
+    y ** (2.18 + 2.82 t) NaN - this happens inside the correlation's range) the loop must stop: its continuation test
+    must be *false* for a NaN residual.  `while |f| > tol` is (NaN compares false); `while not (|f| <= tol)` is not."""
+    if isinstance(loop, ast.For):
+        ctx.ok("C06-i", q + ":loop leaves on a NaN residual", f"{f.file}:{loop.lineno}", "a bounded for loop terminates whatever the residual", nontrivial=True)
+        return
+    cont = _nan3(loop.test, loop.body)
+    breaks = []
+    for st in loop.body:
+        for n in ast.walk(st):
+            if isinstance(n, ast.If) and any(isinstance(x, (ast.Break, ast.Return)) for b in n.body for x in ast.walk(b)):
+                breaks.append(_nan3(n.test, loop.body))
+            if isinstance(n, ast.If) and any(isinstance(x, (ast.Break, ast.Return)) for b in n.orelse for x in ast.walk(b)):
+                v = _nan3(n.test, loop.body)
+                breaks.append(None if v is None else not v)
+    raises = any(isinstance(n, ast.Raise) for st in loop.body for n in ast.walk(st))
+    spins = cont is True and not any(b is True for b in breaks) and not (raises and any(b is None for b in breaks))
+    if spins and any(b is None for b in breaks):
+        spins = False  # a break whose condition cannot be evaluated may be an iteration bound
+    ctx.check(
+        not spins, "C06-i", q + ":loop leaves on a NaN residual", f"{f.file}:{loop.lineno}",
+        "the continuation test of the Newton loop is false for a NaN residual (every comparison with NaN is false), so an overshoot that makes the residual NaN ends the iteration instead of spinning forever",
+        signature="loop continues on NaN", continuation_under_nan=str(cont), break_conditions_under_nan=[str(b) for b in breaks],
+    )
 
 
 
